@@ -35,6 +35,19 @@ check("C16", "exploration",
       TB + " One recorded finding (known_findings.txt): fabricated segments can enter the stream before convergence.",
       "deterministic simulation with fault injection: seeded ratio-mismatch search at codec and session level, convergence/stability/soundness oracles", "DESIGN.md 8/C16")
 
+check("C03", "exploration",
+      "Seeded search over pause points and pause lengths of the reading application (up to 20 virtual minutes), receive windows 1..64, congestion control on/off and loss windows in which every ACK-only / WASK / WINS datagram (picked by the independent decoder) is dropped; oracles: stream prefix, bounded buffering at both ends while stalled, no new sequence number on the wire while the last window shown to the sender is 0, and completion within an analytic budget once the reader has resumed and the targeted loss has ended.",
+      TB + " Completion is judged after the writers have stopped, so that the budget counts queued segments exactly.",
+      "deterministic simulation with fault injection: seeded reader stalls with content-targeted loss of control datagrams, standstill / bounded-buffering / resumption oracles", "DESIGN.md 8/C03")
+check("C12", "exploration",
+      "Metamorphic: every seeded run of two raw cores is executed twice in one bubble - baseline, and shifted by per-direction sequence-number offsets and a clock offset drawn so that 2^32 or 2^31 falls anywhere in the transfer - and the complete normalised datagram traces, emission times and delivered data are compared event by event (Mode K is exactly deterministic, so the oracle is sharp). Full sessions whose cores, clock and FEC encoders start just before their wrap points, and codec streams around the FEC id wrap, are decided by the stream/wire/codec oracles.",
+      TB + " sn/ts of WASK/WINS segments are don't-care fields and are not compared.",
+      "deterministic simulation with fault injection: metamorphic shifted re-execution with exact trace comparison; wrap-positioned session and codec runs", "DESIGN.md 8/C12")
+check("C13", "exploration",
+      "Seeded search over interleavings of 1-3 blocked readers, 1-3 blocked writers and 0-2 blocked acceptors with data arrival, window opening, deadline changes of every kind, Close and transport errors at seeded virtual instants; after every step a reference model of a blocking endpoint is evaluated at quiescence (no pending call whose outcome is enabled; every return legal at its return time, a timeout never early; exactly-once intact messages; Close semantics).",
+      TB + " At quiescence all goroutines are durably blocked, so a pending-but-enabled call is a missed wake-up, not timing. Where the runtime (not the seed) chooses among several enabled outcomes, the scenario avoids enabling two at once or records only the class.",
+      "deterministic simulation with fault injection: seeded stimulus schedules against blocked callers, reference model of a blocking endpoint evaluated at every quiescence", "DESIGN.md 8/C13")
+
 NOTYET = "check not built yet in this session (work in progress; see DESIGN.md section 8 for the design)"
 for p in props:
     if p["id"] not in CHECKS:
